@@ -96,7 +96,7 @@ def run_main_scenarios(spec, scratch):
     outs, confirmed = [], False
     base = ['--run_anyway', '1', '-s', '32', '-N', '10']
 
-    def run(args, name, interrupt_after=None):
+    def run(args, name, interrupt_after=None, base=base):
         out = os.path.join(work, name + '.h5')
         for ext in ('', '.cfg'):
             try:
@@ -159,6 +159,55 @@ def run_main_scenarios(spec, scratch):
                     res.append((extra_name, rca, rcb, p.returncode if p else 3, (p.stdout if p else '')[-400:]))
                 failed = any(r[1] != 0 or r[2] != 0 or r[3] == 1 for r in res)
                 outs.append({'args': [sc], 'exit': 1 if failed else 0, 'stdout': '\n'.join(f'{r[0]}: inovesa exits {r[1]}/{r[2]}; {r[4].strip()}' for r in res)})
+            elif sc == 'options':
+                # C20: precedence command line > config file > default, legacy names, compatibility-only names, refusals
+                def cfgval(fn, key):
+                    try:
+                        for l in open(fn):
+                            if l.startswith(key + '='):
+                                return l.strip().split('=', 1)[1]
+                    except OSError:
+                        pass
+                    return None
+                text = []
+                failed = False
+                cur = os.path.join(work, 'current.cfg'); open(cur, 'w').write('StepsPerTs=1500\nSynchrotronFrequency=9000\nAcceleratingVoltage=1.5e6\noutstep=7\n')
+                leg = os.path.join(work, 'legacy.cfg'); open(leg, 'w').write('steps=1500\nSyncFreq=9000\nRFVoltage=1.5e6\noutstep=7\n')
+                comp = os.path.join(work, 'compat.cfg'); open(comp, 'w').write('outstep=7\nRotationType=2\nHaissinskiIterations=5\nInitialDistParam=3\nSaveSourceMap=1\n')
+                plain = os.path.join(work, 'plain.cfg'); open(plain, 'w').write('outstep=7\n')
+                want = {'given on the command line': (['-N', '700', '-f', '8000', '-V', '1.1e6'], {'StepsPerTs': 700.0, 'SynchrotronFrequency': 8000.0, 'AcceleratingVoltage': 1.1e6, 'outstep': 7.0}),
+                        'given in the config file only': ([], {'StepsPerTs': 1500.0, 'SynchrotronFrequency': 9000.0, 'AcceleratingVoltage': 1.5e6, 'outstep': 7.0})}
+                for cname, cfile in (('current names', cur), ('legacy names', leg)):
+                    for wname, (extra, exp) in want.items():
+                        out, rc, so = run(['-T', '0.01', '-c', cfile] + extra, f'opt_{cname[:3]}_{len(extra)}', base=['--run_anyway', '1', '-s', '32'])
+                        got = {k: cfgval(out + '.cfg', k) for k in exp}
+                        bad_ = [k for k in exp if got[k] is None or abs(float(got[k]) - exp[k]) > 1e-6 * abs(exp[k])]
+                        if rc != 0 or bad_:
+                            failed = True
+                        text.append(f'config with {cname}, options {wname}: exit {rc}, effective values {got}' + (f' — expected {exp}' if bad_ else ''))
+                # default when given nowhere
+                out, rc, so = run(['-T', '0.01'], 'opt_default')
+                dflt = cfgval(out + '.cfg', 'outstep')
+                text.append(f'no config, no -n: outstep={dflt}')
+                # compatibility-only options change nothing
+                cmpx = build_harness('h5_final_compare', scratch, hdf5=True)
+                a, rca, _ = run(['-T', '0.3', '-c', plain], 'opt_plain')
+                b2, rcb, _ = run(['-T', '0.3', '-c', comp], 'opt_compat')
+                pc = subprocess.run([cmpx, a, b2], capture_output=True, text=True, timeout=120) if not isinstance(cmpx, tuple) else None
+                if rca != 0 or rcb != 0 or (pc is not None and pc.returncode == 1):
+                    failed = True
+                text.append(f'compatibility-only options in the config file: exits {rca}/{rcb}; {(pc.stdout if pc else "").strip()}')
+                # refusals: message, failure status (unknown option / malformed value), nothing simulated
+                for nm, args_, need_fail in (('unknown option', ['--nonsense', '1'], True), ('malformed value', ['-s', 'abc'], True), ('unknown option in the config file', ['-c', os.path.join(work, 'bad.cfg')], True),
+                                             ('missing config file', ['-c', os.path.join(work, 'does_not_exist.cfg')], False)):
+                    open(os.path.join(work, 'bad.cfg'), 'w').write('NoSuchOption=1\n')
+                    out, rc, so = run(['-T', '0.01'] + args_, 'opt_refuse')
+                    created = os.path.exists(out)
+                    ok = (not created) and len(so.strip()) > 0 and (rc != 0 if need_fail else True)
+                    if not ok:
+                        failed = True
+                    text.append(f'{nm}: exit {rc}, message: {so.strip()[-80:]!r}, results file created: {created}')
+                outs.append({'args': [sc], 'exit': 1 if failed else 0, 'stdout': '\n'.join(text)})
             elif sc == 'restart':
                 # C11: T1 then a continuation from the last record (and from a chosen record) against the uninterrupted run
                 cmpx = build_harness('h5_final_compare', scratch, hdf5=True)
